@@ -93,6 +93,9 @@ func Load(repo, goos, goarch string) (*Prog, error) {
 			p.ModFns = append(p.ModFns, fn)
 		}
 	}
+	for _, fn := range p.ModFns {
+		despillReturns(fn)
+	}
 	sort.Slice(p.ModFns, func(i, j int) bool {
 		a, b := p.ModFns[i], p.ModFns[j]
 		if a.String() != b.String() {
@@ -237,4 +240,66 @@ func fnName(f *ssa.Function) string {
 	s = strings.ReplaceAll(s, ModPath+"/", "")
 	s = strings.ReplaceAll(s, ModPath+".", "cedar.")
 	return s
+}
+
+// despillReturns undoes go/ssa's result spilling in functions that contain a defer: there every
+// "return v" is built as "*r = v; rundefers; t = *r; return t" with r a local cell per result. When the cell is a
+// plain local (never captured: no deferred closure can change it) and the store precedes the load in the
+// same block with no other store to the cell in between, the return operand is replaced by the stored value,
+// so the rules see the same shape whether or not the function has a defer. The recover block's return (no
+// predecessor) is left alone.
+func despillReturns(fn *ssa.Function) {
+	if fn.Recover == nil {
+		return
+	}
+	for _, b := range fn.Blocks {
+		if len(b.Instrs) == 0 || b == fn.Recover {
+			continue
+		}
+		ret, ok := b.Instrs[len(b.Instrs)-1].(*ssa.Return)
+		if !ok {
+			continue
+		}
+		for i, rv := range ret.Results {
+			ld, ok := rv.(*ssa.UnOp)
+			if !ok || ld.Op != token.MUL || ld.Block() != b {
+				continue
+			}
+			al, ok := ld.X.(*ssa.Alloc)
+			if !ok || al.Heap || al.Referrers() == nil {
+				continue
+			}
+			plain := true
+			for _, r := range *al.Referrers() {
+				switch x := r.(type) {
+				case *ssa.Store:
+					if x.Addr != ssa.Value(al) {
+						plain = false
+					}
+				case *ssa.UnOp, *ssa.DebugRef:
+				default:
+					plain = false
+				}
+			}
+			if !plain {
+				continue
+			}
+			var val ssa.Value
+			for _, in := range b.Instrs {
+				if in == ssa.Instruction(ld) {
+					break
+				}
+				if st, ok := in.(*ssa.Store); ok && st.Addr == ssa.Value(al) {
+					val = st.Val
+				}
+			}
+			if val == nil {
+				continue
+			}
+			ret.Results[i] = val
+			if refs := val.Referrers(); refs != nil {
+				*refs = append(*refs, ret)
+			}
+		}
+	}
 }
